@@ -4,10 +4,12 @@
 // current tree are compiled into this binary (the filter's `main` is renamed).
 //
 //   stdin : `mangle <hex>` | `demangle <hex>`      (hex-encoded bytes, `-` = empty)
+//           `filtargs <hex>*` | `filtstdin <hex>`   (the tool's main(): arguments / standard input) -> `o <rc> <hex of stdout>`
 //   stdout: `s <hex>`  (for demangle: what `process` wrote to std::cout, minus its final newline)
 #include <iostream>
 #include <sstream>
 #include <string>
+#include <vector>
 #include "TFEL/UnicodeSupport/UnicodeSupport.hxx"
 
 #define main tfel_unicode_filt_main
@@ -49,7 +51,58 @@ int main() {
   while (std::getline(std::cin, line)) {
     std::istringstream is(line);
     std::string op, h, s;
-    is >> op >> h;
+    is >> op;
+    if (op == "filtargs" || op == "filtstdin") {
+      // the tool's own main(): `filtargs <hex>*` = one command-line argument per token,
+      // `filtstdin <hex>` = the bytes of standard input (no argument).  Answer: everything written to std::cout.
+      std::vector<std::string> args;
+      bool ok = true;
+      while (is >> h) {
+        if (!unhex(h, s)) ok = false;
+        args.push_back(s);
+      }
+      if (!ok || (op == "filtstdin" && args.size() != 1u) || args.empty()) {  // no argument = read stdin: use filtstdin
+        out << "bad-op\n";
+        continue;
+      }
+      try {
+        std::ostringstream cap;
+        auto* old = std::cout.rdbuf(cap.rdbuf());
+        int rc = -1;
+        try {
+          if (op == "filtargs") {
+            std::vector<const char*> av;
+            av.push_back("tfel-unicode-filt");
+            for (const auto& a : args) av.push_back(a.c_str());
+            av.push_back(nullptr);
+            rc = tfel_unicode_filt_main(static_cast<int>(av.size()) - 1, av.data());
+          } else {
+            std::istringstream in(args[0]);
+            auto* oldin = std::cin.rdbuf(in.rdbuf());
+            std::cin.clear();
+            const char* av[] = {"tfel-unicode-filt", nullptr};
+            try {
+              rc = tfel_unicode_filt_main(1, av);
+            } catch (...) {
+              std::cin.rdbuf(oldin);
+              std::cin.clear();
+              throw;
+            }
+            std::cin.rdbuf(oldin);
+            std::cin.clear();
+          }
+        } catch (...) {
+          std::cout.rdbuf(old);
+          throw;
+        }
+        std::cout.rdbuf(old);
+        out << "o " << rc << " " << hex(cap.str()) << '\n';
+      } catch (std::exception& e) {
+        out << "exc " << e.what() << '\n';
+      }
+      continue;
+    }
+    is >> h;
     if (!unhex(h, s)) {
       out << "bad-op\n";
       continue;
